@@ -495,6 +495,24 @@ def units16(job, out, case=None):
                 arrays, pipelines, observations, max_ingest = cfg.parse_instrument_config('telescope')
                 machines, sysbw = cfg.parse_cluster_config()
                 hot, cold = cfg.parse_buffer_config()
+                # a second Config of the same, unchanged file must parse to the same values
+                cfg2 = Config(cfgp)
+                a2, p2, o2, mi2 = cfg2.parse_instrument_config('telescope')
+                m2, sb2 = cfg2.parse_cluster_config()
+                h2, c2 = cfg2.parse_buffer_config()
+                first = ([(o.est, o.duration, o.ingest_data_rate) for o in observations],
+                         [(mm.cpu, mm.bandwidth) for mm in machines], sysbw,
+                         hot[0].total_capacity, hot[0].max_ingest_data_rate,
+                         cold[0].total_capacity, cold[0].max_data_rate)
+                second = ([(o.est, o.duration, o.ingest_data_rate) for o in o2],
+                          [(mm.cpu, mm.bandwidth) for mm in m2], sb2,
+                          h2[0].total_capacity, h2[0].max_ingest_data_rate,
+                          c2[0].total_capacity, c2[0].max_data_rate)
+                _bump(out, 'c16_reparse_checks')
+                if first != second:
+                    _viol(out, 'C16', 'second_parse_of_same_file_differs', dict(c, spelling=str(sp)),
+                          spelling_kind=str(sp), column='reparse', first=str(first)[:200],
+                          second=str(second)[:200])
                 parsed[str(sp)] = {
                     'm': gen.multiplier(unit), 'arrays': arrays, 'max_ingest': max_ingest,
                     'obs': [(o.name, o.est, o.duration, o.demand, o.ingest_data_rate)
@@ -637,7 +655,7 @@ def move18(job, out, case=None):
                 if rng.random() < 0.2:
                     cr = hr
                 mode = rng.choice(['h2c', 'c2h', 'round', 'h2c_refused', 'c2h_refused', 'round',
-                                   'h2c_exact', 'c2h_exact'])
+                                   'h2c_exact', 'c2h_exact', 'h2c_two', 'c2h_two'])
                 hot_cap = size + rng.randint(1, 30)
                 cold_cap = size + rng.randint(0, 30)
                 cases.append({'kind': 'move18', 'size': size, 'hot_rate': hr, 'cold_rate': cr,
@@ -659,6 +677,11 @@ def move18(job, out, case=None):
             obs.total_data_size = c['size']
             mode = c['mode']
             legs = []
+            if mode.endswith('_two'):
+                _two_parked(out, c, env, buf, rng)
+                out['evaluations'] += 1
+                out['extra_nontrivial'].append(case_hash(c))
+                continue
             if mode in ('h2c', 'round', 'h2c_refused', 'h2c_exact'):
                 hot.observations['stored'].append(obs)
                 hot.current_capacity -= c['size']
@@ -683,6 +706,40 @@ def move18(job, out, case=None):
             out['extra_nontrivial'].append(case_hash(c))
     finally:
         shutil.rmtree(d, ignore_errors=True)
+
+
+def _two_parked(out, c, env, buf, rng):
+    """Two observations of different size stored in the source tier; the move takes the last
+    one stored.  It must proceed iff the destination has room for THAT observation."""
+    from topsim.core.instrument import Observation
+    hot, cold = buf.hot[0], buf.cold[0]
+    leg = 'h2c' if c['mode'].startswith('h2c') else 'c2h'
+    src, dst = (hot, cold) if leg == 'h2c' else (cold, hot)
+    a = Observation('oA', 0, 1, 1, None, 1)
+    b = Observation('oB', 0, 1, 1, None, 1)
+    if 'sizes' not in c:
+        s1 = rng.randint(1, 40)
+        s2 = rng.randint(1, 40)
+        while s2 == s1:
+            s2 = rng.randint(1, 40)
+        c['sizes'] = [s1, s2]
+        lo, hi = sorted(c['sizes'])
+        c['dst_free'] = rng.choice([lo - 1, lo, (lo + hi) // 2, hi - 1, hi, hi + 3])
+    a.total_data_size, b.total_data_size = c['sizes']
+    src.total_capacity = src.current_capacity = sum(c['sizes']) + 5
+    dst.total_capacity = max(c['dst_free'], 0) + 50
+    src.observations['stored'].extend([a, b])
+    src.current_capacity -= sum(c['sizes'])
+    dst.current_capacity = max(c['dst_free'], 0)
+    moved = b                      # observation_for_transfer() pops the last one stored
+    fits = dst.current_capacity >= moved.total_data_size
+    c2 = dict(c, size=moved.total_data_size)
+    _one_move(out, c2, env, buf, moved, leg, refused=not fits)
+    names = [o.name for o in src.observations['stored']]
+    if 'oA' not in names:
+        _viol(out, 'C18', 'other_observation_disturbed', dict(c), direction=leg,
+              hot_slower=c['hot_rate'] < c['cold_rate'], source_list=names)
+    _bump(out, 'c18_two_parked_cases')
 
 
 def _one_move(out, c, env, buf, obs, leg, refused):
